@@ -19,6 +19,7 @@ import (
 	"strconv"
 	"strings"
 	"sync"
+	"syscall"
 	"time"
 )
 
@@ -267,8 +268,15 @@ loop:
 			idle := time.Since(lastProgress)
 			mu.Unlock()
 			if stallAfter > 0 && idle > stallAfter {
-				wo.stalled = true
-				_ = cmd.Process.Kill()
+				if !wo.stalled {
+					wo.stalled = true
+					// ask the Go runtime for all goroutine stacks first, then make sure it dies
+					_ = cmd.Process.Signal(syscall.SIGQUIT)
+					go func() {
+						time.Sleep(5 * time.Second)
+						_ = cmd.Process.Kill()
+					}()
+				}
 			}
 		}
 	}
@@ -279,6 +287,19 @@ loop:
 		wo.crashed = true
 		wo.crashIdx = curIdx
 		s := stderr.String()
+		if wo.stalled {
+			// put the goroutines that were running (the ones that never reached quiescence) first
+			var run []string
+			for _, blk := range strings.Split(s, "\n\n") {
+				if strings.HasPrefix(blk, "goroutine ") && (strings.Contains(strings.SplitN(blk, "\n", 2)[0], "[running") || strings.Contains(strings.SplitN(blk, "\n", 2)[0], "[runnable")) {
+					if len(blk) > 2500 {
+						blk = blk[:2500]
+					}
+					run = append(run, blk)
+				}
+			}
+			s = strings.Join(run, "\n\n") + "\n\n" + s
+		}
 		if len(s) > 6000 {
 			s = s[:3000] + "\n...\n" + s[len(s)-3000:]
 		}
@@ -442,7 +463,7 @@ func cmdCheck(args []string) int {
 			harnessTrouble = append(harnessTrouble, fmt.Sprintf("worker died at idx %d without a Go panic:\n%s", c.idx, c.log))
 			continue
 		}
-		if harnessPanic(c.log) {
+		if !strings.HasPrefix(c.log, "STALL") && harnessPanic(c.log) {
 			harnessTrouble = append(harnessTrouble, fmt.Sprintf("harness panic at idx %d:\n%s", c.idx, c.log))
 			continue
 		}
@@ -533,6 +554,7 @@ func crashSignature(log string) string {
 	msg := reGoroutineLine.FindString(log)
 	msg = regexp.MustCompile(`0x[0-9a-f]+`).ReplaceAllString(msg, "0x?")
 	msg = regexp.MustCompile(`\[recovered\].*`).ReplaceAllString(msg, "")
+	msg = regexp.MustCompile(`\d+`).ReplaceAllString(msg, "N")
 	fr := ""
 	if i := strings.Index(log, msg); i >= 0 || true {
 		m := reFrame.FindStringSubmatch(log)
